@@ -54,7 +54,8 @@ fn item_inner(rng: &mut Rng, sc: &mut Scene, depth: usize) -> (X, Option<B>) {
             (X::leaf("path", &[("id", &id), ("d", &d)]), bx)
         }
         7 => { let (x, y, w, h) = (g(rng), g(rng), s(rng), s(rng)); (X::leaf("box", &[("id", &id), ("x", &f(x)), ("y", &f(y)), ("width", &f(w)), ("height", &f(h))]), Some([x, y, x + w, y + h])) }
-        8 => { let (x, y) = (g(rng), g(rng)); (X::leaf("point", &[("id", &id), ("x", &f(x)), ("y", &f(y))]), None) }
+        // a point adds nothing to the extent, with or without a label (generated text adds nothing either)
+        8 => { let (x, y) = (g(rng), g(rng)); if rng.chance(1, 2) { (X::leaf("point", &[("id", &id), ("x", &f(x)), ("y", &f(y)), ("text", "p")]), None) } else { (X::leaf("point", &[("id", &id), ("x", &f(x)), ("y", &f(y))]), None) } }
         9 | 10 => {
             // group with optional translate / scale and optional clip-path
             let k = 1 + rng.below(3);
